@@ -45,12 +45,20 @@ func runLate(c *Ctx) {
 		n := 2 + c.Rng.Intn(4)
 		cases = append(cases, lateCase{
 			Objects: n, PerObject: 5 + c.Rng.Intn(400), Corrupt: 1 + c.Rng.Intn(n-1),
-			Mode:   []string{"truncate", "empty", "remove", "tail"}[c.Rng.Intn(4)], Pad: c.Rng.Intn(3) * 1500,
+			Mode: []string{"truncate", "empty", "remove", "tail"}[c.Rng.Intn(4)], Pad: c.Rng.Intn(3) * 1500,
 			Format: respFormats[c.Rng.Intn(len(respFormats))], Ctrl: c.Rng.Intn(2) == 0,
 		})
 	}
 	results := make([]*lateResult, len(cases))
-	ParallelDo(len(cases), 6, func(i int) { results[i] = lateRun(cases[i]) })
+	ParallelDo(len(cases), 6, func(i int) {
+		results[i] = lateRun(cases[i])
+		if results[i].harnessPanic() {
+			// environment trouble (temp space, descriptors, time-outs under load) must not
+			// look like a defect: the case is run again and only a repeated panic is reported
+			results[i] = lateRun(cases[i])
+			results[i].Stat("late:retried-after-harness-panic")
+		}
+	})
 	for i, lc := range cases {
 		reportLate(c, lc, results[i])
 	}
@@ -61,8 +69,19 @@ type lateResult struct {
 	fails [][3]string // kind, key, what
 }
 
-func (r *lateResult) Stat(s string)                  { r.stats = append(r.stats, s) }
-func (r *lateResult) Fail(kind, key, what string, _ any) { r.fails = append(r.fails, [3]string{kind, key, what}) }
+func (r *lateResult) harnessPanic() bool {
+	for _, f := range r.fails {
+		if f[0] == "harness-panic" {
+			return true
+		}
+	}
+	return false
+}
+
+func (r *lateResult) Stat(s string) { r.stats = append(r.stats, s) }
+func (r *lateResult) Fail(kind, key, what string, _ any) {
+	r.fails = append(r.fails, [3]string{kind, key, what})
+}
 
 func reportLate(c *Ctx, lc lateCase, r *lateResult) {
 	c.Eval(fmt.Sprintf("late|%+v", lc))
@@ -76,11 +95,11 @@ func reportLate(c *Ctx, lc lateCase, r *lateResult) {
 
 func runLateCase(c *Ctx, lc lateCase) { reportLate(c, lc, lateRun(lc)) }
 
-func lateRun(lc lateCase) *lateResult {
-	c := &lateResult{}
+func lateRun(lc lateCase) (c *lateResult) {
+	c = &lateResult{}
 	defer func() {
 		if r := recover(); r != nil {
-			c.Fail("panic", "C19:late:panic", fmt.Sprintf("late %+v: panic: %v", lc, r), nil)
+			c.Fail("harness-panic", "C19:late:harness-panic", fmt.Sprintf("late %+v: panic in the harness: %v\n%s", lc, r, Stack()), nil)
 		}
 	}()
 	lateRun1(c, lc)
